@@ -3,6 +3,7 @@
 # Confirms a seeded change in a scratch worktree of /repo's HEAD: patch applies, suite passes with it, demo fails with it and passes without.
 # On success copies patch.diff, the demo and notes into /verif/seeded/<seed-id>/ and writes meta.json (without the check results).
 set -u
+mkdir -p /tmp/wt
 SRC="$1"; ID="$2"; PROP="$3"; PATCH="${4:-$SRC/patch.diff}"
 export GOFLAGS=-mod=mod GOPROXY=off GOSUMDB=off GOTOOLCHAIN=local
 WT=/tmp/wt/verify-$$
